@@ -18,3 +18,10 @@ import EmuVerif.Props.C23
 #print axioms EmuVerif.Props.C23.backends_agree_after_step0
 #print axioms EmuVerif.Props.C23.step0_differs_iff
 #print axioms EmuVerif.Props.C23.masked_steps_prefix
+#print axioms EmuVerif.Props.C23.sv_step_matrix
+#print axioms EmuVerif.Props.C23.sv_step_entry
+#print axioms EmuVerif.Props.C23.sv_full_after_slm_end
+#print axioms EmuVerif.Props.C23.sv_step_matrix_no_error
+#print axioms EmuVerif.Props.C23.darkSv_symm
+#print axioms EmuVerif.Props.C23.mps_step_matrix
+#print axioms EmuVerif.Props.C23.mps_step_entry
